@@ -1,10 +1,28 @@
 from asyncio import AbstractEventLoop, CancelledError, Future, get_running_loop
 from collections import deque
 from collections.abc import AsyncIterator
+from os import environ
+from sys import exc_info
+from typing import Any
 
 __all__ = [
     "AsyncQueue",
 ]
+
+# verification hooks - inert unless HAIWAY_VERIF=1 is set in the environment AND an observer is installed
+_VERIF: bool = environ.get("HAIWAY_VERIF") == "1"
+_verif_observer: Any = None  # callable(queue, event, *details) installed by the verification harness
+
+
+def _verif_emit(
+    queue: Any,
+    event: str,
+    /,
+    *details: Any,
+) -> None:
+    if (observer := _verif_observer) is not None:
+        observer(queue, event, *details)
+
 
 
 class AsyncQueue[Element](AsyncIterator[Element]):
@@ -22,6 +40,8 @@ class AsyncQueue[Element](AsyncIterator[Element]):
         self._queue: deque[Element] = deque(elements)
         self._waiting: Future[Element] | None = None
         self._finish_reason: BaseException | None = None
+        if _VERIF:
+            _verif_emit(self, "init", elements)
 
     def __del__(self) -> None:
         self.finish()
@@ -37,6 +57,9 @@ class AsyncQueue[Element](AsyncIterator[Element]):
         *elements: Element,
     ) -> None:
         if self.is_finished:
+            if _VERIF:
+                _verif_emit(self, "enqueue", (element, *elements), "RuntimeError")
+
             raise RuntimeError("AsyncQueue is already finished")
 
         if self._waiting is not None and not self._waiting.done():
@@ -46,18 +69,26 @@ class AsyncQueue[Element](AsyncIterator[Element]):
             self._queue.append(element)
 
         self._queue.extend(elements)
+        if _VERIF:
+            _verif_emit(self, "enqueue", (element, *elements), "ok")
 
     def finish(
         self,
         exception: BaseException | None = None,
     ) -> None:
         if self.is_finished:
+            if _VERIF:
+                _verif_emit(self, "finish", exception)
+
             return  # already finished, ignore
 
         self._finish_reason = exception or StopAsyncIteration()
 
         if self._waiting is not None and not self._waiting.done():
             self._waiting.set_exception(self._finish_reason)
+
+        if _VERIF:
+            _verif_emit(self, "finish", exception)
 
     def cancel(self) -> None:
         self.finish(exception=CancelledError())
@@ -66,18 +97,34 @@ class AsyncQueue[Element](AsyncIterator[Element]):
         assert self._waiting is None, "Only a single queue consumer is supported!"  # nosec: B101
 
         if self._queue:  # check the queue, let it finish
+            if _VERIF:
+                _verif_emit(self, "recv", "val", self._queue[0])
+
             return self._queue.popleft()
 
         if self._finish_reason is not None:  # check if is finished
+            if _VERIF:
+                _verif_emit(self, "recv", "exc", self._finish_reason)
+
             raise self._finish_reason
 
         try:
             # create a new future to wait for next
             self._waiting = self._loop.create_future()
+            if _VERIF:
+                _verif_emit(self, "recv", "suspended")
+
             # wait for the result
             return await self._waiting
 
         except CancelledError:
+            if _VERIF:
+                if exc_info()[1] is self._finish_reason:
+                    _verif_emit(self, "wake", "exc", self._finish_reason)
+
+                else:
+                    _verif_emit(self, "wake", "cancelled")
+
             # when cancelled after receiving an element put it back to prevent losing it
             if (
                 (waiting := self._waiting) is not None
@@ -90,5 +137,12 @@ class AsyncQueue[Element](AsyncIterator[Element]):
             raise
 
         finally:
+            if _VERIF and self._waiting is not None:
+                if exc_info()[0] is None:  # returning what the awaited future holds
+                    _verif_emit(self, "wake", "val", self._waiting.result())
+
+                elif not isinstance(exc_info()[1], CancelledError):
+                    _verif_emit(self, "wake", "exc", exc_info()[1])
+
             # cleanup
             self._waiting = None
